@@ -22,4 +22,10 @@ CATALOGUE = [
     dict(id='base-iter-skip-first', prop='C16', file=T, old="        for i0, i1 in zip(self.chunk_bounds[:-1], self.chunk_bounds[1:]):", new="        for i0, i1 in zip(self.chunk_bounds[1:-1], self.chunk_bounds[2:]):"),
     dict(id='base-iter-same-slices', prop='C16', file=T, old="        for i0, i1 in zip(self.chunk_bounds[:-1], self.chunk_bounds[1:]):", new="        for i0, i1 in zip(self.chunk_bounds[:-1], self.chunk_bounds[:-1]):"),
     dict(id='base-iter-equivalent', prop='C16', file=T, old="        for i0, i1 in zip(self.chunk_bounds[:-1], self.chunk_bounds[1:]):", new="        for i0, i1 in zip(self.chunk_bounds, self.chunk_bounds[1:]):", expect='pass'),
+    dict(id='gcb-skip-empty-ch', prop='C16', file=T, old="        b.extend(ch)\n", new="        if not ch:\n            continue\n        b.extend(ch)\n"),
+    dict(id='gcb-no-dedup', prop='C16', file=T, old="        if b and ch and ch[0] == b[-1]:\n            ch = ch[1:]\n", new=""),
+    dict(id='gcb-range-excl-end', prop='C16', file=T, old="        ch = list(range(n, n + arr_size + 1, chunk_size))", new="        ch = list(range(n, n + arr_size, chunk_size))"),  # first file of size 0: b[-1] on an empty list
+    dict(id='gcb-range-from-n+1', prop='C16', file=T, old="        ch = list(range(n, n + arr_size + 1, chunk_size))", new="        ch = list(range(n + 1, n + arr_size + 1, chunk_size))"),
+    dict(id='gcb-append-always', prop='C16', file=T, old="        if b[-1] != n + arr_size:\n            b.append(n + arr_size)", new="        b.append(n + arr_size)"),
+    dict(id='gcb-n-not-advanced', prop='C16', file=T, old="        n += arr_size\n    return b", new="        n = arr_size\n    return b"),
 ]
